@@ -337,6 +337,15 @@ def definitions(repo: Path) -> str:
         raise TranslationBroken(site, "_DEFAULT_ALLOWED_RETURN_ORIGINS is not frozenset((<str literals>,))")
     origins = [e.value for e in d.args[0].elts]  # type: ignore[attr-defined]
     out.append("Definition gen_default_allowed : list (list N) := [" + "; ".join(_cstr(o) for o in origins) + "].")
+    import re
+
+    ents = []
+    for o in origins:
+        m = re.fullmatch(r"(https?)://([^:/?#@\\\[\]]+)(?::([0-9]+))?", o)
+        if m is None:
+            raise TranslationBroken(site, f"default allowlist entry {o!r} is not scheme://host[:port]")
+        ents.append(f"({_cstr(m.group(1))}, {_cstr(m.group(2))}, {'None' if m.group(3) is None else 'Some ' + _cstr(m.group(3))})")
+    out.append("Definition gen_default_entries : list (list N * list N * option (list N)) := [" + "; ".join(ents) + "].")
     il = _func(tree, "_is_localhost", site)
     b = _body(il)
     if not (len(b) == 1 and isinstance(b[0], ast.Return) and isinstance(b[0].value, ast.Compare) and _u(b[0].value.left) == "hostname" and len(b[0].value.ops) == 1 and isinstance(b[0].value.ops[0], ast.In) and isinstance(b[0].value.comparators[0], ast.Tuple) and all(isinstance(e, ast.Constant) and isinstance(e.value, str) for e in b[0].value.comparators[0].elts)):
